@@ -1,5 +1,6 @@
 import Okane.Lemmas.Price
 import Okane.Lemmas.PriceTerm
+import Okane.Lemmas.PriceDbFile
 /-!
 # C09 — commodity conversion uses the right price
 
@@ -401,5 +402,202 @@ example : OrdValid (fun (_ : Nat) l => l.reverse) := fun _ _ _ => List.mem_rever
 example : fuelBound repo1 (day 9) = 4481 := by decide +kernel
 
 end Examples
+
+end Okane.Price
+
+/-!
+# C09 (continued) — the price-database *file*: parser, loader, and what `process` holds afterwards
+
+`Okane.PriceDbFile` (`Model/PriceDbFile.lean`) models `parse::price::parse_price_db` (the `ParsedIter` of
+`adaptor.rs` over `price_db_entry`, separated by `character::newlines`) and `PriceRepositoryBuilder::load_price_db`;
+the proofs are in `Lemmas/PriceDbFile.lean`.  Texts are `List Char`; `printDb` prints one
+`P <date> <commodity> <number> <commodity>\n` line per record; `canon s name` is the interned commodity
+`ctx.commodities.ensure(name)` returns (an alias resolves to its canonical name).
+-/
+namespace Okane.Price
+open Okane Okane.PriceDbFile Okane.Parse
+
+/-! ## (a) round trip -/
+
+/-- The parser reads back every list of well-formed records printed one per line. -/
+theorem C09_pdb_roundtrip (rs : List PriceRec) (hwf : ∀ r ∈ rs, wfRec r = true) :
+    parsePriceDb (printDb rs) = .ok rs := parsePriceDb_rt rs hwf
+
+/-- … and in every other layout the grammar admits for such lines: each line ended by `\n` or `\r\n`, any runs of
+`\r` / `\n` characters (empty lines, stray carriage returns) before, between and after the lines. -/
+theorem C09_pdb_roundtrip_layout (ls : List Line) (trailer : List Char) (htr : trailer.all isNl = true)
+    (hwf : ∀ l ∈ ls, l.1.all isNl = true ∧ wfRec l.2.1 = true) :
+    parsePriceDb (printLayout ls trailer) = .ok (ls.map fun l => l.2.1) :=
+  parsePriceDb_layout_rt ls trailer htr hwf
+
+/-! ## (b) totality, and where the errors are -/
+
+/-- For every text the parser returns the records or a `ParseError` whose checkpoint and failure position are
+nested suffixes of the text (what `ParseError::new`'s `offset_from` / `compute_line_number` need): it never
+reaches a `ParserError::assert` and the iteration needs no more than `length + 1` rounds. -/
+theorem C09_pdb_parse_total (t : List Char) :
+    (∃ rs, parsePriceDb t = .ok rs) ∨
+    (∃ e, parsePriceDb t = .err e ∧
+      ∃ i' pos, pos <:+ i' ∧ i' <:+ t ∧ parseErrorNew t i' pos e.isCut = .ok e) := parsePriceDb_total t
+
+/-- … for every fuel above the text's length (the model's fuel is not what makes it terminate). -/
+theorem C09_pdb_parse_fuel (t : List Char) (n : Nat) (hn : t.length < n) :
+    GoodEnding t (parsedIter priceDbEntry newlines t n t []).2 := parsedIter_priceDb_total t n hn
+
+/-- `load_price_db` returns `Ok` exactly when the parser accepts the text, with every record inserted, and the
+parser's error otherwise; no panic (the division of `insert_impl` is guarded), no hang — for every text, every
+commodity store and every builder. -/
+theorem C09_pdb_load_total (t : List Char) (s : Store) (b : Builder String) :
+    (∃ rs b', parsePriceDb t = .ok rs ∧ insertAll .priceDB b (eventsOf s rs) = .ok b' ∧
+      loadPriceDb t s b = .ok (storeAfter s rs, b')) ∨
+    (∃ e, parsePriceDb t = .err e ∧ loadPriceDb t s b = .err e) := by
+  rcases parsePriceDb_total t with ⟨rs, h⟩ | ⟨e, h, _⟩
+  · obtain ⟨b', h1, _, h3⟩ := loadPriceDb_of_ok h s b
+    exact .inl ⟨rs, b', h, h1, h3⟩
+  · exact .inr ⟨e, h, loadPriceDb_of_err h s b⟩
+
+/-- the price-db part of `report::process` (ledger events, then the file, then `build`) is total as well, and on an
+accepted text it is `buildFrom` on the parsed records followed by `build`. -/
+theorem C09_pdb_process_total (ledgerEvents : List (PriceEvent String)) (t : List Char) (s : Store) :
+    (∃ rs b, parsePriceDb t = .ok rs ∧ buildFrom ledgerEvents (eventsOf s rs) = .ok b ∧
+      processPriceDb ledgerEvents t s = .ok (storeAfter s rs, build b)) ∨
+    (∃ e, parsePriceDb t = .err e ∧ processPriceDb ledgerEvents t s = .err e) :=
+  processPriceDb_total ledgerEvents t s
+
+/-- A line that does not start with `P` (a comment, a blank-only line, an indented line …) after any number of
+well-formed lines is rejected; the error span is its first character. -/
+theorem C09_pdb_rejects_nonP (ls : List Line) (hwf : ∀ l ∈ ls, l.1.all isNl = true ∧ wfRec l.2.1 = true)
+    (c : Char) (Y : List Char) (hP : c ≠ 'P') (hnl : isNl c = false) :
+    ∃ e, parsePriceDb (printLines ls ++ c :: Y) = .err e ∧ e.offset = 0 ∧ e.spanEnd = c.utf8Size :=
+  parsePriceDb_rejects_nonP ls hwf c Y hP hnl
+
+/-- A well-formed line that is not followed by a line end — the last line of a file without final new-line
+(`Z = []`), or a line going on with `;`, a lone `\r`, … — is rejected; the error is where the line end is missing. -/
+theorem C09_pdb_rejects_unterminated (ls : List Line) (hwf : ∀ l ∈ ls, l.1.all isNl = true ∧ wfRec l.2.1 = true)
+    (b : List Char) (hb : b.all isNl = true) (r : PriceRec) (hr : wfRec r = true)
+    (Z : List Char) (hZ : AmountEnd Z) (hle : Comb.lineEnding Z = .bt Z) :
+    ∃ e, parsePriceDb (printLines ls ++ (b ++ (printBody r ++ Z))) = .err e ∧
+      e.offset = Comb.utf8Len (b ++ printBody r) ∧ e.spanEnd = e.offset + headSize Z :=
+  parsePriceDb_rejects_unterminated ls hwf b hb r hr Z hZ hle
+
+/-! ## (c) the loader -/
+
+/-- After `load_price_db`, every record `P d A x B` of the file with `x ≠ 0` is in the builder under `B → A`
+(`records[B][A]`: "1 A is worth x B") with rate `x` and under `A → B` with rate `1 / x`; both entries have source
+`PriceDB`; the two rates are reciprocal.  (This is `C09_reciprocal` for every line of the file.) -/
+theorem C09_pdb_loaded (t : List Char) (s s' : Store) (b b' : Builder String) (rs : List PriceRec)
+    (hp : parsePriceDb t = .ok rs) (h : loadPriceDb t s b = .ok (s', b'))
+    (r : PriceRec) (hr : r ∈ rs) (hx : r.rate.toRat ≠ 0) :
+    (r.date, r.rate.toRat) ∈ (entryOf b' (canon s r.commodity) (canon s r.target)).recs ∧
+    (entryOf b' (canon s r.commodity) (canon s r.target)).source = .priceDB ∧
+    (r.date, 1 / r.rate.toRat) ∈ (entryOf b' (canon s r.target) (canon s r.commodity)).recs ∧
+    (entryOf b' (canon s r.target) (canon s r.commodity)).source = .priceDB ∧
+    r.rate.toRat * (1 / r.rate.toRat) = 1 := by
+  obtain ⟨b2, _, h2, h3⟩ := loadPriceDb_of_ok hp s b
+  rw [h3] at h
+  simp only [Outcome.ok.injEq, Prod.mk.injEq] at h
+  rw [← h.2]
+  exact load_member h2 hr hx
+
+/-- What an ordered pair holds after loading, exactly: the entry it had, bumped (`Price.bump`: source raised to
+`PriceDB`, ledger records dropped) by the contributions of the file's records in file order. -/
+theorem C09_pdb_entry (t : List Char) (s s' : Store) (b b' : Builder String) (rs : List PriceRec)
+    (hp : parsePriceDb t = .ok rs) (h : loadPriceDb t s b = .ok (s', b')) (w o : String) :
+    entryOf b' w o = bump .priceDB (entryOf b w o) (contrib (eventsOf s rs) w o) := by
+  obtain ⟨b2, _, h2, h3⟩ := loadPriceDb_of_ok hp s b
+  rw [h3] at h
+  simp only [Outcome.ok.injEq, Prod.mk.injEq] at h
+  rw [← h.2]
+  exact load_entry h2 w o
+
+/-- Records with `x = 0` change nothing: the builder after loading the records is the builder after loading them
+without the zero-amount ones (which only register their commodities); `x = 0` means a zero mantissa. -/
+theorem C09_pdb_zero (rs : List PriceRec) (s s' : Store) (b b' : Builder String)
+    (h : loadRecs s b rs = .ok (s', b')) :
+    (∃ s'', loadRecs s b (rs.filter fun r => decide (r.rate.toRat ≠ 0)) = .ok (s'', b')) ∧
+    (∀ r : PriceRec, r.rate.toRat = 0 ↔ r.rate.mant = 0) :=
+  ⟨load_zero rs s b s' b' h, fun r => toRat_eq_zero_iff r.rate⟩
+
+/-- `C09_priority_built` for the text: after `process` with a price-db file, an ordered pair holds exactly the
+file's records for it (sorted) if the file has any, else exactly the ledger's. -/
+theorem C09_pdb_priority (ledgerEvents : List (PriceEvent String)) (t : List Char) (s s' : Store)
+    (repo : Builder String) (rs : List PriceRec) (hp : parsePriceDb t = .ok rs)
+    (h : processPriceDb ledgerEvents t s = .ok (s', repo)) (w o : String) :
+    entryOf repo w o =
+      if contrib (eventsOf s rs) w o = [] then ⟨.ledger, isortBy recLe (contrib ledgerEvents w o)⟩
+      else ⟨.priceDB, isortBy recLe (contrib (eventsOf s rs) w o)⟩ := by
+  obtain ⟨b, h1, h2⟩ := processPriceDb_of_ok hp ledgerEvents s
+  rw [h2] at h
+  simp only [Outcome.ok.injEq, Prod.mk.injEq] at h
+  rw [← h.2]
+  exact C09_priority_built ledgerEvents (eventsOf s rs) b h1 w o
+
+/-- Round trip and loader together: loading the printed file of well-formed records puts every non-zero record
+into the builder in both directions. -/
+theorem C09_pdb_print_load (rs : List PriceRec) (hwf : ∀ r ∈ rs, wfRec r = true) (s : Store) (b : Builder String) :
+    ∃ b', loadPriceDb (printDb rs) s b = .ok (storeAfter s rs, b') ∧
+      ∀ r ∈ rs, r.rate.toRat ≠ 0 →
+        (r.date, r.rate.toRat) ∈ (entryOf b' (canon s r.commodity) (canon s r.target)).recs ∧
+        (r.date, 1 / r.rate.toRat) ∈ (entryOf b' (canon s r.target) (canon s r.commodity)).recs := by
+  obtain ⟨b', _, h2, h3⟩ := loadPriceDb_of_ok (parsePriceDb_rt rs hwf) s b
+  refine ⟨b', h3, fun r hr hx => ?_⟩
+  have := load_member h2 hr hx
+  exact ⟨this.1, this.2.2.1⟩
+
+/-! ## non-vacuity -/
+section PdbExamples
+
+/-- `P 2024/01/05 AB 12.5 USD`, a zero line, a grouped number, a line without commodity -/
+private def exDb : List PriceRec :=
+  [⟨⟨2024, 1, 5⟩, "AB", ⟨false, 125, 1, none⟩, "USD"⟩,
+   ⟨⟨2024, 1, 6⟩, "AB", ⟨false, 0, 2, none⟩, "EUR"⟩,
+   ⟨⟨2023, 12, 31⟩, "JRTOK", ⟨false, 3584, 0, some .comma3dot⟩, "JPY"⟩,
+   ⟨⟨2024, 2, 29⟩, "€", ⟨true, 5, 0, none⟩, ""⟩]
+
+private theorem exDb_wf : ∀ r ∈ exDb, wfRec r = true := by decide +kernel
+
+example : String.ofList (printDb exDb) =
+    "P 2024/01/05 AB 12.5 USD\nP 2024/01/06 AB 0.00 EUR\nP 2023/12/31 JRTOK 3,584 JPY\nP 2024/02/29 € -5\n" := by
+  decide +kernel
+example : parsePriceDb (printDb exDb) = .ok exDb := C09_pdb_roundtrip exDb exDb_wf
+-- CRLF, empty lines, a stray `\r`, no trailer
+example : parsePriceDb (printLayout (exDb.map fun r => (['\n', '\r', '\r', '\n'], r, true)) ['\r']) = .ok exDb := by
+  have := C09_pdb_roundtrip_layout (exDb.map fun r => (['\n', '\r', '\r', '\n'], r, true)) ['\r'] rfl
+    (by decide +kernel)
+  rw [this]; rfl
+-- the model against okane's own unit-test inputs (`price_db_parses_valid_with_date`)
+example : parsePriceDb "P 2023/12/31 JRTOK 3,584 JPY\nP 2024-10-28 EUR 0.9367 CHF\n".toList =
+    .ok [⟨⟨2023, 12, 31⟩, "JRTOK", ⟨false, 3584, 0, some .comma3dot⟩, "JPY"⟩,
+         ⟨⟨2024, 10, 28⟩, "EUR", ⟨false, 9367, 4, none⟩, "CHF"⟩] := by decide +kernel
+-- the ignored unit test (`price_db_parses_valid_with_datetime`): a time of day is not accepted
+example : (parsePriceDb "P 2022/02/02 17:06:00 DCTOPIX 22,745 JPY\n".toList).isErr = true := by decide +kernel
+-- rejected texts: no final new-line (error at end of input, empty span), comment line (line 2), bad date, expression
+example : parsePriceDb "P 2024/01/05 AB 12.5 USD".toList = .err ⟨24, 24, 1, false⟩ := by decide +kernel
+example : parsePriceDb "P 2024/01/05 AB 12.5 USD\n; comment\n".toList = .err ⟨0, 1, 2, false⟩ := by decide +kernel
+example : parsePriceDb "\n\nP 2024/02/30 AB 12.5 USD\n".toList = .err ⟨4, 5, 1, false⟩ := by decide +kernel
+example : parsePriceDb "P 2024/01/05 AB (1 + 2) USD\n".toList = .err ⟨16, 17, 1, false⟩ := by decide +kernel
+example : ∃ e, parsePriceDb (printLines [] ++ ([] ++ (printBody exDb.head! ++ []))) = .err e ∧
+    e.offset = Comb.utf8Len ([] ++ printBody exDb.head!) ∧ e.spanEnd = e.offset + headSize [] :=
+  C09_pdb_rejects_unterminated [] (by simp) [] rfl _ (exDb_wf _ (by decide)) [] amountEnd_nil rfl
+example : ∃ e, parsePriceDb (printLines [([], exDb.head!, false)] ++ ';' :: " c\n".toList) = .err e ∧
+    e.offset = 0 ∧ e.spanEnd = (';' : Char).utf8Size :=
+  C09_pdb_rejects_nonP [([], exDb.head!, false)] (by decide +kernel) ';' _ (by decide) (by decide)
+-- the loader on the example file, starting from an empty store and an empty builder: 1 AB = 12.5 USD both ways,
+-- the zero line leaves no trace, source PriceDB
+example : (match loadPriceDb (printDb exDb) {} [] with
+    | .ok (_, b) => ((entryOf b "USD" "AB").recs, (entryOf b "AB" "USD").recs, (entryOf b "EUR" "AB").recs,
+        (entryOf b "USD" "AB").source)
+    | _ => ([], [], [], .ledger)) =
+    ([(⟨2024, 1, 5⟩, 25 / 2)], [(⟨2024, 1, 5⟩, 2 / 25)], [], .priceDB) := by decide +kernel
+-- an alias declared in the ledger is resolved before the pair is stored
+example : canon ⟨[("$", some "USD"), ("USD", none)]⟩ "$" = "USD" := by decide +kernel
+example : ∃ b', loadPriceDb (printDb exDb) {} [] = .ok (storeAfter {} exDb, b') :=
+  (C09_pdb_print_load exDb exDb_wf {} []).elim fun b' h => ⟨b', h.1⟩
+-- the price db replaces a ledger price of the same pair, `process`-level
+example : (match processPriceDb [⟨⟨2024, 1, 9⟩, ⟨1, "AB"⟩, ⟨7, "USD"⟩⟩] (printDb exDb) {} with
+    | .ok (_, repo) => some ((entryOf repo "USD" "AB").source, (entryOf repo "USD" "AB").recs)
+    | _ => none) = some (.priceDB, [(⟨2024, 1, 5⟩, 25 / 2)]) := by decide +kernel
+
+end PdbExamples
 
 end Okane.Price
